@@ -255,6 +255,34 @@ func runC16History(c *mon.Ctx) {
 		}
 	}
 	{
+		// documents declaring TWO different profiles neither of which is profile 1: a
+		// P1-based candidate under psa-profile and a P2-based name under eat-profile
+		var p1c, p2c *c16Cand
+		for _, cd := range cands {
+			if cd.base == 1 && p1c == nil {
+				p1c = cd
+			}
+			if cd.base == 2 && p2c == nil {
+				p2c = cd
+			}
+		}
+		if p1c != nil {
+			a := g.Valid(1)
+			a.Canon, a.Profile = p1c.name, model.SP(p1c.name)
+			for _, other := range []string{model.P2Name, func() string {
+				if p2c != nil {
+					return p2c.name
+				}
+				return model.P2Name
+			}()} {
+				ms := append(a.JSONMembers(), model.Member{Name: "eat-profile", Value: `"` + other + `"`})
+				w := a.WireCBOR()
+				w.Items = append(w.Items, refcbor.I(model.P2KProfile), refcbor.Tstr(other))
+				universe = append(universe, &c16Cand{name: "(" + p1c.name + " and " + other + " declared)", base: 1, cbor: refcbor.Encode(w), json: model.MembersJSON(ms)})
+			}
+		}
+	}
+	{
 		// documents that carry a (registered or not-yet-registered) profile NAME under
 		// the profile member of the OTHER base profile: no (member, value) pair of the
 		// register matches, whatever gets registered later under its proper member
@@ -509,6 +537,18 @@ func runC16History(c *mon.Ctx) {
 					return
 				}
 				if err == nil && what == "by-name" {
+					// a document declaring this profile under the member the register recorded
+					// for it is dispatched to IT (whatever that type's decoder then makes of
+					// it) - not treated as a profile-less, i.e. profile-1, document
+					doc := []byte(`{"` + extprof.ByNameJSONTag + `":"` + name + `","psa-client-id":1}`)
+					if x, derr := psatoken.DecodeClaimsFromJSON(doc); derr == nil {
+						if _, isP1 := x.(*psatoken.P1Claims); isP1 {
+							fail("own-member-name-ignored/by-name", fmt.Sprintf("a document declaring %q under its registered member %q was decoded as profile 1", name, extprof.ByNameJSONTag), nil)
+							stop = true
+							return
+						}
+					}
+					c.Count("own-member-name-dispatches")
 					reg[name] = entry{"extprof.ByNameProfile", extprof.ByNameJSONTag}
 					c.Count("registrations-ok")
 					c.Count("registrations-ok:by-name")
@@ -539,7 +579,7 @@ func runC16History(c *mon.Ctx) {
 				}
 				for k, v := range now {
 					// tokens declaring the registered profile (alone or next to another one) are the ones that may change
-					affected := err == nil && (strings.HasSuffix(k, "|"+name) || strings.Contains(k, " and "+name+" declared)"))
+					affected := err == nil && (strings.HasSuffix(k, "|"+name) || strings.Contains(k, " and "+name+" declared)") || strings.Contains(k, "("+name+" and "))
 					if !affected && last[k] != v {
 						fail("lookup-changed-by-registration/"+what+"/"+strings.SplitN(k, "|", 2)[0], fmt.Sprintf("after Register(%s %q) the outcome of %s changed: %.160s -> %.160s", what, name, k, last[k], v), nil)
 						stop = true
